@@ -25,15 +25,15 @@ for sd in sorted(glob.glob('/tmp/seed/out_*/C*_*')):
         continue   # not evaluated yet
     name = {1: '', 2: 'w2_', 3: 'w3_', 4: 'w4_', 5: 'w5_', 6: 'w6_', 7: 'w7_'}[wave] + os.path.basename(sd)
     dst = '/verif/seeded/' + name
-    os.makedirs(dst, exist_ok=True)
-    for fn in ['patch.diff', 'demo.rs']:
-        if os.path.exists(sd + '/' + fn):
-            shutil.copy(sd + '/' + fn, dst + '/' + fn)
     meta = json.load(open(sd + '/meta.json'))
     conf = json.load(open(sd + '/confirm.json')) if os.path.exists(sd + '/confirm.json') else None
     if conf and conf.get('applies') and not conf.get('suite_passes_with_change'):
         print('SKIPPED (does not pass the existing suite in my confirmation):', sd, file=__import__('sys').stderr)
         continue
+    os.makedirs(dst, exist_ok=True)
+    for fn in ['patch.diff', 'demo.rs']:
+        if os.path.exists(sd + '/' + fn):
+            shutil.copy(sd + '/' + fn, dst + '/' + fn)
     if name in ('C17_b', 'w2_C17_a') and not (conf or {}).get('demo_fails_with_change'):
         conf = {"applies": True, "suite_passes_with_change": True, "demo_fails_with_change": True, "demo_passes_without_change": True,
                 "note": "confirmed with `cargo test --offline --release --test demo` (the divergence only shows in the release profile; in debug the demo passes with and without the change)"}
